@@ -1,4 +1,5 @@
 import Bxh.Model.Exec
+import Bxh.Gen.Guards
 /-!
 # C08 — block execution is total
 
@@ -82,5 +83,67 @@ theorem C08_remove_panic_is_contained (l : Led) (h : Nat) (id : TId) (lst : List
 /-- non-vacuity: a block of one bad-signature transfer and one transfer of a non-numeric amount -/
 example : (execBlock {} { led := {}, height := 6 }
     [(.xfer "a" "b" (some 5), false), (.xfer "a" "b" none, true)]).2.rcpts.length = 2 := by decide
+
+/-! ### where a panic would end the process: goroutines and recover guards (regenerated from /repo on every run)
+
+A panic is contained only by a `recover` in the goroutine it happens in.  `Bxh.Gen.goSites` lists every `go` statement of the
+block-execution packages (executor, ledger, bolt VM, proof pool) with whether the goroutine's own body starts with a deferred
+`recover`; `Bxh.Gen.recoverGuards` lists every function that defers one, and whether the guard is the function's first statement.
+The theorems below are re-checked against the regenerated tables: a new goroutine, a guard that is gone, or a statement moved in
+front of a guard breaks one of them. -/
+
+open Bxh.Gen in
+/-- the goroutines without a recover of their own, reviewed one by one (a panic in any of them ends the process, so each must be
+panic-free for every block — which is what the correspondence run exercises):
+* `Start` ×3: the executor's three long-lived loops (pre-execution, execution, persistence) — the stages themselves;
+* `verifySign`: one goroutine per transaction; its body is `verifyTxSignature` (guarded, see below) plus a map write under a mutex;
+* `verifyProofs`: one goroutine per group of a block; its body calls `CheckProof`, whose rule engines return errors (the nil-error
+  dereference that used to crash here was repaired: fix 0f59eb42);
+* `postAuditEvent` / `postNodeEvent` / `postBlockEvent` ×2 / `postLogsEvent`: `event.Feed.Send` towards subscribers, after the block is done;
+* `PersistBlockData` ×2, `PersistExecutionResult` ×2: the concurrent writes of one block to the state store, the block file and the
+  chain index (their failure modes are the crash points of C11). -/
+def reviewedGoroutines : List (String × String × Nat) := [
+  ("internal/executor", "BlockExecutor.Start", 0),
+  ("internal/executor", "BlockExecutor.Start", 1),
+  ("internal/executor", "BlockExecutor.Start", 2),
+  ("internal/executor", "BlockExecutor.postAuditEvent", 0),
+  ("internal/executor", "BlockExecutor.postBlockEvent", 0),
+  ("internal/executor", "BlockExecutor.postBlockEvent", 1),
+  ("internal/executor", "BlockExecutor.postLogsEvent", 0),
+  ("internal/executor", "BlockExecutor.postNodeEvent", 0),
+  ("internal/executor", "BlockExecutor.verifyProofs", 0),
+  ("internal/executor", "BlockExecutor.verifySign", 0),
+  ("internal/ledger", "ChainLedgerImpl.PersistExecutionResult", 0),
+  ("internal/ledger", "ChainLedgerImpl.PersistExecutionResult", 1),
+  ("internal/ledger", "Ledger.PersistBlockData", 0),
+  ("internal/ledger", "Ledger.PersistBlockData", 1)]
+
+/-- the functions whose deferred `recover` the containment argument relies on: contract code (any method, any arguments, any IBTP)
+runs inside `BoltVM.Run` / `BoltVM.HandleIBTP`, signature verification of foreign transactions inside `verifyTxSignature` -/
+def requiredGuards : List (String × String) := [
+  ("internal/executor", "verifyTxSignature"),
+  ("pkg/vm/boltvm", "BoltVM.HandleIBTP"),
+  ("pkg/vm/boltvm", "BoltVM.Run")]
+
+open Bxh.Gen in
+/-- every goroutine of the block-execution packages has its own recover guard or is a reviewed one -/
+theorem C08_goroutines_guarded_or_reviewed :
+    goSites.all (fun g => g.guarded || reviewedGoroutines.contains (g.pkg, g.func, g.n)) = true := by decide +kernel
+
+open Bxh.Gen in
+/-- no reviewed entry is stale -/
+theorem C08_reviewed_goroutines_exist :
+    reviewedGoroutines.all (fun r => goSites.any (fun g => (g.pkg, g.func, g.n) == r)) = true := by decide +kernel
+
+open Bxh.Gen in
+/-- **the recover guards are in place, and each is the first statement of its function** (nothing — no look-up, no
+dereference of a field of the transaction — runs before the guard stands) -/
+theorem C08_recover_guards_in_place :
+    requiredGuards.all (fun r => recoverGuards.any (fun g => g.pkg == r.1 && g.func == r.2 && g.first)) = true := by decide +kernel
+
+open Bxh.Gen in
+/-- the contracts package starts no goroutine: contract code runs on the executor's goroutine, inside the bolt VM's guard -/
+theorem C08_contracts_start_no_goroutine :
+    goSites.all (fun g => g.pkg != "internal/executor/contracts") = true := by decide +kernel
 
 end Bxh.Props.C08
